@@ -240,9 +240,19 @@ def cStd (o : Opts) (d : Deps) : List Str :=
       ++ (if d.usesPrimStaticArray then [lit "string.h"] else []))).map angle
   else []
 
-/-- The standard headers of C++ `Language.get_includes` before formatting (the fixes leave it as it is: its output is
-pinned by doctests). -/
+/-- The standard headers of C++ `Language.get_includes` before formatting.  Fixed code: only `<cstdint>` depends on
+`use_standard_types` (without it the integer types are spelled `unsigned int` …); `<array>` / `<bitset>` follow the
+dependency flags alone, because `create_array_decl` / `create_bitset_decl` spell `std::array` / `std::bitset` whatever
+the setting says. -/
 def cppStdNames (o : Opts) (d : Deps) : List Str :=
+  [lit "limits"]
+  ++ (if o.useStd && d.usesInteger then [lit "cstdint"] else [])
+  ++ (if d.usesArray || d.usesPrimStaticArray then [lit "array"] else [])
+  ++ (if d.usesBoolStaticArray then [lit "bitset"] else [])
+  ++ (if d.usesUnion && hasVariant o then [lit "variant"] else [])
+
+/-- Before that fix: `<array>` and `<bitset>` were dropped together with `<cstdint>` when `use_standard_types` is off. -/
+def cppStdNamesBeforeFix (o : Opts) (d : Deps) : List Str :=
   [lit "limits"]
   ++ (if o.useStd then
         (if d.usesInteger then [lit "cstdint"] else [])
@@ -258,6 +268,7 @@ def cppGetIncludesWith (names : Opts → Deps → List Str) (o : Opts) (d : Deps
   ++ (if d.usesVla ∧ o.vlaInc ≠ [] then [o.vlaInc] else [])
 
 def cppGetIncludes := cppGetIncludesWith cppStdNames
+def cppGetIncludesBeforeFix := cppGetIncludesWith cppStdNamesBeforeFix
 
 /-- `filter_includes` = `generate_include_filepart_list(ext, sort=True)`. -/
 def filterIncludesWith (getInc : Opts → Deps → List Str) (pcfg : Namespace.Cfg) (o : Opts) (d : Deps) :
@@ -303,8 +314,14 @@ def emitted (lang : Lang) (pcfg : Namespace.Cfg) (o : Opts) (t : Top) : Except E
 def emittedBeforeFix (lang : Lang) (pcfg : Namespace.Cfg) (o : Opts) (t : Top) : Except Err (List Str) :=
   match lang with
   | .c => filterIncludesWith cStd pcfg o (directBeforeFix t)
-  | .cpp => filterIncludesWith cppGetIncludes pcfg o (directBeforeFix t)
+  | .cpp => filterIncludesWith cppGetIncludesBeforeFix pcfg o (directBeforeFix t)
   | .py => .ok []
+
+/-- The code before the `use_standard_types` fix only (everything else as fixed). -/
+def emittedCppBeforeStdFix (pcfg : Namespace.Cfg) (o : Opts) (t : Top) : Except Err (List Str) :=
+  match filterIncludesWith cppGetIncludesBeforeFix pcfg o (direct t) with
+  | .error e => .error e
+  | .ok l => .ok (l ++ cppUnionBlock o t ++ cppPortBlock t.fixedPort l)
 
 /-! ## Python imports -/
 
